@@ -2,7 +2,7 @@
 //! the final value, the captured print output and the compiled bytecode.
 //! input line:  call ;;; call ...      call = stmt ;; stmt ...   (one `interpret` per call)
 //! output line: R:<result> ## O:<printed lines joined by ␞> ## D:<dump>
-//!   result: V:<value>  C (no value)  E:<RuntimeErrorKind>  T:<other error class>  P (panic)
+//!   result: one outcome per call, joined by ' ;; ':  V:<value>  C (no value)  E:<RuntimeErrorKind>  T:<other error class>;  P (panic, whole line)
 //!   dump  : numbat::verif::vm::disassembly after the last successful call
 use numbat::module_importer::BuiltinModuleImporter;
 use numbat::resolver::CodeSource;
@@ -32,7 +32,7 @@ fn run_case(line: &str) -> String {
     let printed: Arc<Mutex<Vec<String>>> = Arc::new(Mutex::new(Vec::new()));
     let r = catch_unwind(AssertUnwindSafe(|| {
         let mut ctx = Context::new(BuiltinModuleImporter::default());
-        let mut last = "C".to_string();
+        let mut outcomes: Vec<String> = Vec::new();
         let mut dump = String::new();
         for call in line.split(" ;;; ") {
             let code = call.replace(" ;; ", "\n");
@@ -44,19 +44,21 @@ fn run_case(line: &str) -> String {
             };
             match ctx.interpret_with_settings(&mut settings, &code, CodeSource::Text) {
                 Ok((_, InterpreterResult::Value(v))) => {
-                    last = format!("V:{}", numbat::verif::vm::value_repr(&v));
+                    outcomes.push(format!("V:{}", numbat::verif::vm::value_repr(&v)));
                     dump = numbat::verif::vm::disassembly(&ctx);
                 }
                 Ok((_, InterpreterResult::Continue)) => {
-                    last = "C".into();
+                    outcomes.push("C".into());
                     dump = numbat::verif::vm::disassembly(&ctx);
                 }
                 Err(e) => {
-                    last = err_kind(&e);
-                    break;
+                    // a failing input is rolled back by Context; the session goes on
+                    outcomes.push(err_kind(&e));
+                    dump = numbat::verif::vm::disassembly(&ctx);
                 }
             }
         }
+        let last = outcomes.join(" ;; ");
         (last, dump)
     }));
     let out = printed.lock().map(|p| p.join("\u{241e}")).unwrap_or_default();
